@@ -379,8 +379,78 @@ func (w *W) c14History(st *histState, g string, doc []byte, hseed int64, depth i
 	}
 }
 
+// c14Large: deletions across the serializer's 65536-tag and 64 KiB value flush
+// boundaries in a large array; the serialize round trip is the reader of interest.
+func (w *W) c14Large(st *histState, n int, lo, hi int) {
+	st.idx++
+	if !w.mine(st.idx) {
+		return
+	}
+	var b []byte
+	b = append(b, '[')
+	for i := 0; i < n; i++ {
+		if i > 0 {
+			b = append(b, ',')
+		}
+		b = append(b, byte('0'+i%10))
+	}
+	b = append(b, ']')
+	cs := &ev.Case{Gen: "large-array", A: int64(n), B: int64(lo), C: int64(hi)}
+	w.Journal(cs)
+	if w.Skip() {
+		return
+	}
+	a := ref.Analyze(b)
+	p, err, _ := w.parseGuarded(b, w.configs()[st.idx%len(w.configs())], false, false)
+	if err != nil || a.Class != ref.MustAccept {
+		return
+	}
+	pj := p.Clone(nil)
+	roots := []*ref.Value{a.Value}
+	opdesc := fmt.Sprintf("array-n=%d-delete[%d,%d)", n, lo, hi)
+	perr := walk.Guard(func() error {
+		it, err := locateInto(pj, Loc{})
+		if err != nil {
+			return err
+		}
+		arr, err := it.Array(nil)
+		if err != nil {
+			return err
+		}
+		k := 0
+		arr.DeleteElems(func(i simdjson.Iter) bool {
+			d := k >= lo && k < hi
+			k++
+			return d
+		})
+		return nil
+	})
+	w.Eval(1)
+	if perr != nil {
+		w.Violation("C14/DeleteElems/"+opdesc, "DeleteElems failed: "+perr.Error(), cs)
+		return
+	}
+	del := map[int]bool{}
+	for i := lo; i < hi; i++ {
+		del[i] = true
+	}
+	modelDelete(roots[0], del)
+	w.c14After(pj, roots, opdesc, "generated array of single-digit integers", cs, true)
+	w.Count("large_array_boundary_deletions", 1)
+	w.Nontrivial(gen.Hash64([]byte(opdesc)))
+}
+
 func runC14(w *W) {
 	st := &histState{}
+	// tag number t of element i is i+2 (root, '['); value words: 1 for '[' then 1 per element
+	for _, boundary := range []int{65536, 131072} {
+		for _, span := range [][2]int{{-3, 3}, {-2, 0}, {0, 2}, {-1, 1}, {-5000, 5000}, {-2, -1}, {1, 2}} {
+			w.c14Large(st, boundary+8000, boundary-2+span[0], boundary-2+span[1])
+		}
+	}
+	for _, span := range [][2]int{{8190, 8194}, {8188, 8190}, {0, 8192}, {8191, 8193}} {
+		w.c14Large(st, 20000, span[0], span[1])
+	}
 	nEnum, nHist := 700, 5000
 	if w.thorough() {
 		nEnum, nHist = 12000, 120000
